@@ -4,6 +4,9 @@ import LarkVerif.Props.C06
 import LarkVerif.Indenter
 import LarkVerif.LexModel
 import LarkVerif.EarleyExec
+import LarkVerif.LRCheck
+import LarkVerif.LRComplete
+import LarkVerif.LALRTable
 import Std.Data.HashMap
 /-! Line-protocol driver: one JSON request per stdin line (`{"op": ...}`), one JSON answer per stdout line.
     Runs the *executable definitions the theorems are about*.  Not part of the proof library. -/
@@ -167,6 +170,92 @@ def runEarley (j : Json) : Except String Json := do
   let wf := edges.all (fun e => e.2.1 < e.2.2 && e.2.2 ≤ n) && igns.all (fun e => e.1 < e.2 && e.2 ≤ n)
   pure (Json.mkObj [("accept", Json.bool acc), ("cols", Json.arr cols.toArray), ("expected", Json.arr exp.toArray), ("wf", Json.bool wf)])
 
+open LALRTable in
+def candOf (j : Json) : Except String Cand := do
+  match (← j.getArr?).toList with
+  | [p, r] => pure (← p.getInt?, ← r.getNat?)
+  | _ => throw "cand"
+
+open LALRTable in
+def rowInOf (j : Json) : Except String RowIn := do
+  let shifts ← (← getArr j "shifts").mapM spanOf
+  let las ← (← getArr j "las").mapM fun e => do
+    match (← e.getArr?).toList with
+    | [la, cs] => pure (← la.getNat?, ← (← cs.getArr?).toList.mapM candOf)
+    | _ => throw "la entry"
+  pure ⟨shifts, las⟩
+
+open LALRTable in
+def actJ : Act → Json
+  | .shift q => Json.arr #[Json.str "s", natJ q]
+  | .reduce r => Json.arr #[Json.str "r", natJ r]
+
+open LALRTable in
+def runLrTable (j : Json) : Except String Json := do
+  let rows ← (← getArr j "rows").mapM rowInOf
+  match build rows with
+  | none => pure (Json.mkObj [("error", Json.bool true),
+      ("conflicts", Json.arr ((rows.zipIdx.flatMap fun (r, i) => (conflicts r).map fun la => natArr [i, la]).toArray))])
+  | some t => pure (Json.mkObj [("error", Json.bool false),
+      ("rows", Json.arr (t.map fun row => Json.arr (row.map fun (la, a) => Json.arr #[natJ la, actJ a]).toArray).toArray)])
+
+open EarleyProto LRProto in
+def ftableOf (j : Json) (rules : List Rule) : Except String FTable := do
+  let rule (i : Nat) : Rule := rules.getD i ⟨0, []⟩
+  let items ← (← getArr j "items").mapM fun st => do
+    (← st.getArr?).toList.mapM fun it => do
+      let (r, d) ← spanOf it
+      pure (rule r, d)
+  let shifts ← (← getArr j "shifts").mapM tripleOf
+  let reduces ← (← getArr j "reduces").mapM tripleOf
+  let gotos ← (← getArr j "gotos").mapM tripleOf
+  pure ⟨items, shifts, reduces.map (fun (q, t, r) => (q, t, rule r)), gotos, ← getNat j "start", ← getNat j "final"⟩
+
+open EarleyProto LRProto in
+def runLrParse (j : Json) : Except String Json := do
+  let rules ← (← getArr j "rules").mapM ruleOf
+  let F ← ftableOf j rules
+  let s0 ← getNat j "s0"
+  let eof ← getNat j "eof"
+  let toks ← natListOf (← j.getObjVal? "toks")
+  let fuel ← getNat j "fuel"
+  let terms ← natListOf (← j.getObjVal? "terms")
+  let T := F.toTable
+  let G : Grammar := ⟨rules⟩
+  let safe := checkSafe G F s0
+  -- the observable state after every consumed prefix
+  let describe (cfg : Config) : Json :=
+    let q := cfg.states.headD 0
+    let choices := terms.filter fun t => (T.action q t).isSome
+    let accepts := choices.filter fun t =>
+      match reduceLoop T t (t == eof) fuel cfg with
+      | Outcome.error => false
+      | Outcome.crash => false
+      | _ => true
+    Json.mkObj [("choices", natArr choices), ("accepts", natArr accepts)]
+  let mut cfg : Config := ⟨[T.start], []⟩
+  let mut steps : Array Json := #[describe cfg]
+  let mut outcome := "shifted"
+  let mut errorAt := toks.length
+  let mut k := 0
+  for t in toks do
+    match reduceLoop T t false fuel cfg with
+    | Outcome.shifted c => cfg := c; steps := steps.push (describe cfg)
+    | Outcome.error => outcome := "error"; errorAt := k; break
+    | Outcome.loop => outcome := "loop"; errorAt := k; break
+    | _ => outcome := "crash"; errorAt := k; break
+    k := k + 1
+  if outcome == "shifted" then
+    outcome := match reduceLoop T eof true fuel cfg with
+      | Outcome.accept _ => "accept"
+      | Outcome.error => "error"
+      | Outcome.loop => "loop"
+      | _ => "crash"
+  -- cross-check with the function the theorems are about
+  let whole := match parse T eof fuel toks with
+    | Outcome.accept _ => "accept" | Outcome.error => "error" | Outcome.loop => "loop" | Outcome.crash => "crash" | Outcome.shifted _ => "shifted"
+  pure (Json.mkObj [("safe", Json.bool safe), ("outcome", Json.str outcome), ("errorAt", natJ errorAt), ("steps", Json.arr steps), ("parse", Json.str whole)])
+
 def handle (j : Json) : Except String Json := do
   let op ← getStr j "op"
   match op with
@@ -211,6 +300,8 @@ def handle (j : Json) : Except String Json := do
     pure (runIndenter toks)
   | "lex" => runLex j
   | "earley" => runEarley j
+  | "lr_table" => runLrTable j
+  | "lr_parse" => runLrParse j
   | _ => throw s!"unknown op {op}"
 
 partial def loop (h : IO.FS.Stream) (out : IO.FS.Stream) : IO Unit := do
